@@ -40,7 +40,7 @@ def verify(name, wt, prop):
     ran.append(("cargo test --offline --lib/--doc (with change)", out.strip()))
     suite_ok = out.count("test result: ok") >= 2 and "FAILED" not in out and "102 passed" in out
     rc, out = sh(demo_cmd(), cwd=wt); ran.append(("demonstration (with change)", out.strip()[-600:]))
-    demo_fails = ("FAILED" in out or "DEMO_EXIT=1" in out or "panicked" in out) and "DEMO_EXIT=0" not in out
+    demo_fails = ("FAILED" in out or "DEMO_EXIT=1" in out or "panicked" in out or "test failed, to rerun" in out) and "DEMO_EXIT=0" not in out
     # without the change
     sh("git stash push -q -- src", cwd=wt)
     try:
